@@ -348,7 +348,18 @@ func cmdTable(args []string) error {
 			nontrivial[o.texts[0]] = true
 		}
 		anyTrue, anyFalse, anyPanic, errTrue, anyErr := false, false, false, false, false
-		for _, v := range o.verdicts {
+		commentTrue := false
+		for si, v := range o.verdicts {
+			if o.sps[si].comments {
+				// only soundness is demanded of the spelling with comments
+				if v.Panic != "" {
+					anyPanic = true
+				}
+				if v.Idem {
+					commentTrue = true
+				}
+				continue
+			}
 			res.ClassVerdict[r.Cls+"->"+fmt.Sprint(v.Idem)]++
 			if v.Panic != "" {
 				anyPanic = true
@@ -370,7 +381,7 @@ func cmdTable(args []string) error {
 			o.dir = "panic"
 		case errTrue:
 			o.dir = "err-but-true"
-		case r.Cls == "F" && anyTrue:
+		case r.Cls == "F" && (anyTrue || commentTrue):
 			o.dir = "unsound"
 		case r.Cls == "T" && anyFalse:
 			o.dir = "incomplete"
